@@ -259,6 +259,9 @@ impl Model {
 enum Ev {
     /// reply to the outstanding request with extra IIN bits (iin1, iin2)
     Ideal(u8, u8),
+    /// the same, but a READ is answered in two fragments and only the *first* (non-final) one
+    /// carries the indications
+    IdealSplit(u8, u8),
     Reject,
     Malformed,
     Silence,
@@ -285,6 +288,9 @@ fn alphabet() -> Vec<Ev> {
         Ev::Malformed,
         Ev::Uns(true, true),
         Ev::Uns(false, true),
+        Ev::IdealSplit(app::iin1::RESTART, 0),
+        Ev::IdealSplit(app::iin1::NEED_TIME, 0),
+        Ev::IdealSplit(app::iin1::CLASS_1_EVENTS, app::iin2::EVENT_BUFFER_OVERFLOW),
     ]
 }
 
@@ -399,14 +405,19 @@ impl Scenario for C17 {
             let mut expect_confirm: Vec<(bool, u8)> = Vec::new();
             let mut sent: Option<Vec<u8>> = None;
             match ev {
-                Ev::Ideal(i1, i2) => {
+                Ev::Ideal(i1, i2) | Ev::IdealSplit(i1, i2) => {
                     if let Some((k, _seq, req)) = m.out.take() {
                         let mut r = ideal_reply(&req, *i1);
                         r[3] |= *i2;
+                        let split = matches!(ev, Ev::IdealSplit(..)) && matches!(k, Kind::Integrity | Kind::EventScan | Kind::Poll);
                         // outcome
                         let restart = *i1 & app::iin1::RESTART != 0;
                         let need_time = *i1 & app::iin1::NEED_TIME != 0;
                         m.process_iin(*i1, *i2);
+                        if split {
+                            // the final fragment shows no indication at all
+                            m.process_iin(0, 0);
+                        }
                         match k {
                             Kind::ClearRestart => {
                                 if restart {
@@ -437,7 +448,15 @@ impl Scenario for C17 {
                             }
                             Kind::Other => {}
                         }
-                        sim.respond(&r);
+                        if split {
+                            let seq = r[0] & 0x0F;
+                            r[0] = app::ctrl(true, false, true, false, seq);
+                            sim.respond(&r);
+                            let last = app::response(app::ctrl(false, true, false, false, (seq + 1) & 0x0F), fc::RESPONSE, 0, 0, &[]);
+                            sim.respond(&last);
+                        } else {
+                            sim.respond(&r);
+                        }
                         sent = Some(r);
                     }
                 }
